@@ -85,6 +85,8 @@ type Req struct {
 	Enabled func() bool
 	// Note is a short human-readable description (for deadlock reports).
 	Note string
+	// Holder (lock requests): the thread holding the lock now, nil if free.
+	Holder func() *Thread
 	// Fair marks a voluntary yield: the default choice is another thread.
 	Fair bool
 
@@ -260,6 +262,9 @@ func (s *Sched) ParkedOnSend(t *Thread) bool {
 func (s *Sched) Step() int            { return int(s.steps) }
 func (s *Sched) Threads() []*Thread   { return s.threads }
 func (s *Sched) Aborting() bool       { return s.aborting }
+
+// Running is the thread whose code is executing (valid inside shim calls).
+func (s *Sched) Running() *Thread { return s.cur }
 func (t *Thread) Done() bool          { return t.done }
 func (t *Thread) Pending() *Req       { return t.req }
 func (t *Thread) PendingKind() OpKind { return t.req.Kind }
@@ -607,7 +612,7 @@ func startWatchdog() {
 					last = n
 					cpuAtChange = procCPU()
 					if ms.Sys > 12<<30 {
-						fmt.Fprintf(os.Stderr, "HARNESS-ERROR: memory guard: this worker uses %d MB\n", ms.Sys>>20)
+						fmt.Fprintf(os.Stderr, "HARNESS-ERROR: memory guard: this worker uses %d MB (heap in use %d MB, stacks %d MB, goroutines %d)\n", ms.Sys>>20, ms.HeapInuse>>20, ms.StackInuse>>20, runtime.NumGoroutine())
 						os.Exit(2)
 					}
 					continue
